@@ -39,6 +39,7 @@ type streamEvent struct {
 type prodObs struct {
 	recs   []*obsRecord
 	events []streamEvent
+	fault  *faultObs // optional: arms a fault-injecting allocator before the write of a chosen record
 }
 
 func (o *prodObs) OnNewField(r, f string) { o.events = append(o.events, streamEvent{"newfield", r, f}) }
@@ -58,6 +59,9 @@ func (o *prodObs) OnMetadataUpdate(r, k string) {
 	o.events = append(o.events, streamEvent{"metadata", r, k})
 }
 func (o *prodObs) OnRecord(rec arrow.Record, pt record_message.PayloadType) {
+	if o.fault != nil {
+		o.fault.OnRecord(rec, pt)
+	}
 	o.recs = append(o.recs, &obsRecord{PType: pt, Key: streamKey(pt, rec.Schema()), Table: tableOf(rec), Schema: rec.Schema()})
 }
 
